@@ -47,8 +47,11 @@ func HarnessC15NoInvention() {
 // headings exist and whatever the word counts are.
 func HarnessC15Exact() {
 	var title string
-	form := vx.Choose("form", 4)
+	form := vx.Choose("form", 5)
 	switch form {
+	case 4:
+		// five words and a last character that also occurs in separators, but no separator pattern
+		title = "Alpha beta gamma delta omega" + []string{" »", " ->", " |", " -", "/", ">", " :", " — x"}[vx.Choose("suffix", 8)]
 	case 0, 1:
 		// three letter-only words (arbitrary letters) joined by single blanks;
 		// total length n
